@@ -187,6 +187,12 @@ def rand_design(rng, profile='small', nops=None, nin=None, ops=None, nregs=None,
                                 lambda: c1 - a, lambda: a * Const(rng.getrandbits(2), 2),
                                 lambda: a == c1, lambda: a < c1, lambda: select(a[0], c1, a),
                                 lambda: c1.nand(a)])()
+            elif op == 'constreg':
+                bw = rng.choice(widths)
+                r_ = Register(bw, reset_value=rng.choice([None, 0, rand_value(rng, bw)]))
+                c_ = Const(rand_value(rng, bw), bw)
+                r_.next <<= rng.choice([lambda: c_, lambda: ~c_, lambda: c_ & Const(rand_value(rng, bw), bw)])()
+                w = r_
             elif op == 'trunc':
                 w = WireVector(rng.choice(widths))
                 w <<= a
@@ -251,7 +257,11 @@ def rand_design(rng, profile='small', nops=None, nin=None, ops=None, nregs=None,
             wa, wd, we = pick(), pick(), pick()
             data = wd[:m.bitwidth] if len(wd) >= m.bitwidth else wd.zero_extended(m.bitwidth)
             if rng.random() < 0.2:
-                m[_addr(wa, m.addrwidth)] <<= data
+                aw_ = _addr(wa, m.addrwidth)
+                m[aw_] <<= data
+                if rng.random() < 0.3:
+                    m[aw_] <<= data      # the same unconditional write twice (distinct Const(1) enables)
+                    d.ops_used.append('dupwrite')
             else:
                 m[_addr(wa, m.addrwidth)] <<= MemBlock.EnabledWrite(data, we[0])
     k = 0
